@@ -503,6 +503,7 @@ func (g *Gen) GenFunc(fn *ssa.Function, spec *FuncSpec) (vc *FnVC, err error) {
 		}
 		v.declGhost(gc)
 	}
+	v.bindGhost(env, v.entry)
 	v.modAll = spec.ModAll
 	for _, m := range spec.Modifies {
 		v.mods = append(v.mods, v.evalMod(env, m)...)
@@ -519,7 +520,23 @@ func (g *Gen) GenFunc(fn *ssa.Function, spec *FuncSpec) (vc *FnVC, err error) {
 	for _, u := range spec.Uses {
 		v.useLemma(env, u, True)
 	}
+	if len(spec.Splits) > 0 {
+		var cases []*Term
+		for _, c := range spec.Splits {
+			cases = append(cases, v.evalClause(env, c))
+		}
+		v.oblige("split", "split-cover", True, Or(cases...), spec.Line, "the case split covers every input")
+		v.assumes = v.assumes[:len(v.assumes)-1]
+		v.fnCases = cases
+	}
 	v.run()
+	if len(v.fnCases) > 0 {
+		for _, o := range v.obls {
+			if len(o.Split) == 0 && o.Kind != "split" {
+				o.Split = v.fnCases
+			}
+		}
+	}
 	// every loop must have been reached or be dead
 	return v, nil
 }
@@ -609,6 +626,7 @@ func (g *Gen) specFuncDefs(v *FnVC) string {
 		}
 	}
 	var b strings.Builder
+	var later []string
 	for _, f := range fs {
 		var params []string
 		env := &Env{g: g, pkg: pkg, sf: sf, vars: map[string]Val{}}
@@ -639,8 +657,28 @@ func (g *Gen) specFuncDefs(v *FnVC) string {
 			fmt.Fprintf(&b, "(declare-fun sf_%s (%s) %s)\n", f.Name, strings.Join(ss, " "), sortOf(rt))
 			continue
 		}
-		body := env.eval(f.Body)
-		fmt.Fprintf(&b, "(define-fun-rec sf_%s (%s) %s %s)\n", f.Name, strings.Join(params, " "), sortOf(rt), body.T.String())
+		// Recursive spec functions are uninterpreted symbols with a definitional
+		// axiom triggered on applications (z3 5.1.0 answered `unsat` on a
+		// satisfiable set of true lemmas about a define-fun-rec function, so
+		// define-fun-rec is not used at all).
+		var ss, bvs []string
+		for _, p := range f.Params {
+			pt := g.parseType(p.Type, pkg)
+			s := sortOf(pt)
+			if s == SSlice {
+				ss = append(ss, ArrSort(sortOf(elemTypeOf(pt))), SSlice)
+				bvs = append(bvs, p.Name+"_arr", p.Name)
+			} else {
+				ss = append(ss, s)
+				bvs = append(bvs, p.Name)
+			}
+		}
+		fmt.Fprintf(&b, "(declare-fun sf_%s (%s) %s)\n", f.Name, strings.Join(ss, " "), sortOf(rt))
+		later = append(later, fmt.Sprintf("(assert (forall (%s) (! (= (sf_%s %s) %s) :pattern ((sf_%s %s)))))\n",
+			strings.Join(params, " "), f.Name, strings.Join(bvs, " "), env.eval(f.Body).T.String(), f.Name, strings.Join(bvs, " ")))
+	}
+	for _, l := range later {
+		b.WriteString(l)
 	}
 	return b.String()
 }
